@@ -1,5 +1,6 @@
 """C02 - see checks/sched.py (shared scheduler sweep) and mc/ref/schedulers_spec.py."""
 from checks import sched
+from mc import pairhist
 
 PROPERTY = "C02"
 META = {
@@ -12,18 +13,23 @@ META = {
         "quick": "N in 8..40 + {100,127,1000}; fs in {1,0.37,1000}; olap in {0,.25,.3,.5,2/3,.75,.9,.99}; bmin in {1,1.5,2,3.7,N/4,N/2-.01}; Lmin in {1,2,5,N//4,N//2,N}; Jdes in {1,2,3,5,10,50,500}; Kdes in {1,2,5,10,100}",
         "thorough": "N in 8..64 + {100,127,1000,4096,1e4,1e5}; fs in {1,2,0.37,1000}; Jdes adds 100; same other axes",
     },
-    "assumptions": ["configurations off the lattice are not covered (small-scope hypothesis: all clamp interactions occur for N<=64)",
+    "assumptions": ["call-history part: every ordered pair of a 34-configuration set (one parameter varied at a time) is run as fork->A->fork->B and B compared bitwise with B in a pristine process",
+                    "configurations off the lattice are not covered (small-scope hypothesis: all clamp interactions occur for N<=64)",
                     "a scheduler call that does not return within 60 s is reported as a failure of that call"],
 }
 
 
 def shards(tier, seed):
-    return sched.shards_for(tier, seed, PROPERTY)
+    return pairhist.shards_for(PROPERTY) + sched.shards_for(tier, seed, PROPERTY)
 
 
 def run_shard(shard):
+    if shard.get("part") == "pairs":
+        return pairhist.run_pair_shard(shard, ("plan", "sched", "nf"))
     return sched.run_shard_for(shard)
 
 
 def replay(case):
+    if case.get("part") == "pairs":
+        return run_shard(case)["failures"]
     return sched.replay_for(case)
